@@ -180,7 +180,7 @@ func cyclePrograms(r *rng.R, k int) []cycleCase {
 			defs = append(defs, &Def{Kind: 'S', SKind: []byte{'s', 'u', 'x'}[r.Intn(3)], Name: name("S", i), Fields: []*Field{{ID: i64p(1), Name: "f", Req: 'o', Ty: wrapType(r, tref(name("S", i+1)))}}})
 		}
 		add(oneFile(defs...), fmt.Sprintf("struct cycle len %d", n), "")
-		// const -> const with an anonymous type: len 1 is accepted (D6), longer ones overflow the stack (D4)
+		// const -> const with an anonymous type: rejected (formerly D6 / D4)
 		for _, ty := range []string{"i32", "string", "list"} {
 			defs = nil
 			for i := 0; i < n; i++ {
@@ -190,16 +190,9 @@ func cyclePrograms(r *rng.R, k int) []cycleCase {
 				}
 				defs = append(defs, &Def{Kind: 'C', Name: name("c", i), Ty: t, Val: cref(name("c", i+1))})
 			}
-			known := "D4"
-			if n == 1 {
-				known = "" // accepted (D6, a C09 finding); the generator copes with primitive types …
-				if ty == "list" {
-					known = "D6" // … but inlines a reference of container type forever
-				}
-			}
-			add(oneFile(defs...), fmt.Sprintf("const cycle (%s) len %d", ty, n), known)
+			add(oneFile(defs...), fmt.Sprintf("const cycle (%s) len %d", ty, n), "")
 		}
-		// const -> const, all of one named type: accepted (every reference keeps its type)
+		// const -> const, all of one named type: rejected as well
 		defs = []*Def{{Kind: 'T', Name: "N", Ty: &TExpr{Kind: "i32"}}}
 		for i := 0; i < n; i++ {
 			defs = append(defs, &Def{Kind: 'C', Name: name("c", i), Ty: tref("N"), Val: cref(name("c", i+1))})
@@ -220,11 +213,7 @@ func cyclePrograms(r *rng.R, k int) []cycleCase {
 				{ID: i64p(2), Name: "g", Req: 'o', Ty: &TExpr{Kind: "i32"}, Dflt: &CV{Kind: 'i', I: int64(i)}}}})
 			defs = append(defs, &Def{Kind: 'C', Name: name("c", i), Ty: tref(name("S", i)), Val: &CV{Kind: 'm'}})
 		}
-		known6 := ""
-		if n == 1 {
-			known6 = "D6" // the constant contains itself through the default: accepted, generator overflows
-		}
-		add(oneFile(defs...), fmt.Sprintf("const/struct-default cycle len %d", n), known6)
+		add(oneFile(defs...), fmt.Sprintf("const/struct-default cycle len %d", n), "")
 		defs = nil
 		for i := 0; i < n; i++ {
 			defs = append(defs, &Def{Kind: 'S', SKind: 's', Name: name("S", i), Fields: []*Field{
@@ -233,19 +222,19 @@ func cyclePrograms(r *rng.R, k int) []cycleCase {
 			defs = append(defs, &Def{Kind: 'C', Name: name("d", i), Ty: tref(name("S", i)), Val: &CV{Kind: 'm'}})
 		}
 		add(oneFile(defs...), fmt.Sprintf("const/struct-default (cast mismatch) cycle len %d", n), "")
-		// struct whose default is a struct literal that needs that default again (D40)
+		// struct whose default is a struct literal that needs that default again: rejected (formerly D40)
 		defs = nil
 		for i := 0; i < n; i++ {
 			defs = append(defs, &Def{Kind: 'S', SKind: 's', Name: name("S", i), Fields: []*Field{
 				{ID: i64p(1), Name: "f", Req: 'o', Ty: tref(name("S", i+1)), Dflt: &CV{Kind: 'm'}}}})
 		}
-		add(oneFile(defs...), fmt.Sprintf("recursive struct default len %d", n), "D40")
-		// service extends cycle: compiles, the generator never returns (D5)
+		add(oneFile(defs...), fmt.Sprintf("recursive struct default len %d", n), "")
+		// service extends cycle: rejected (formerly D5)
 		defs = nil
 		for i := 0; i < n; i++ {
 			defs = append(defs, &Def{Kind: 'V', Name: name("V", i), Parent: name("V", i+1), Funcs: []*Func{{Name: "m"}}})
 		}
-		add(oneFile(defs...), fmt.Sprintf("service cycle len %d", n), "D5")
+		add(oneFile(defs...), fmt.Sprintf("service cycle len %d", n), "")
 		// include loop of length n (n = 1: self include), with a reference across it
 		p := &Prog{Strict: true}
 		fn := []string{"a", "b", "c", "d", "e", "f"}
@@ -439,5 +428,5 @@ func runC08(c *checker, r *rng.R) {
 		c08Case(c, p, false, "arbitrary bytes", "")
 	}
 	c.flush()
-	c.rep.Rule = "file sets run through compile.Compile + gen.Generate in a child process (20 s timeout, GOMEMLIMIT 1 GiB, ulimit -v 6 GiB, 64 MiB goroutine stack): structurally generated programs with every kind of reference cycle of length 1..k (typedef→typedef also through containers, typedef→struct→typedef, struct→struct, const→const with anonymous / named types and through literals, const↔struct default, service extends, include loop / self include), deep acyclic chains (400 levels), invalid references and includes; random valid programs; token-level mutations of valid IDL; arbitrary bytes. Outcome ∈ {ok, err, diverges (compile crash/timeout), gen-diverges} compared with the model's verdict (the AST of text inputs comes from the real parser); oracle: no crash/timeout. Non-trivial = structured, or accepted by the parser; distinct by input. Known-finding shapes (D4 constant cycles of length ≥ 2 over anonymous types, D5 service cycles) are generated apart and reported as known findings."
+	c.rep.Rule = "file sets run through compile.Compile + gen.Generate in a child process (20 s timeout, GOMEMLIMIT 1 GiB, ulimit -v 6 GiB, 64 MiB goroutine stack): structurally generated programs with every kind of reference cycle of length 1..k (typedef→typedef also through containers, typedef→struct→typedef, struct→struct, const→const with anonymous / named types and through literals, const↔struct default, service extends, include loop / self include), deep acyclic chains (400 levels), invalid references and includes; random valid programs; token-level mutations of valid IDL; arbitrary bytes. Outcome ∈ {ok, err, diverges (compile crash/timeout), gen-diverges} compared with the model's verdict (the AST of text inputs comes from the real parser); oracle: no crash/timeout. Non-trivial = structured, or accepted by the parser; distinct by input. The shapes of the repaired findings D4 D5 D6 D40 (constant cycles, service cycles, self-referential defaults) are part of the cycle stream and must end in an error."
 }
